@@ -230,7 +230,7 @@ func genRobustPlan(seed uint64, tier string) *Plan {
 			// has gone must not add up
 			id := g.nextID()
 			base = Op{Kind: "hostile", ID: id, Proto: "tcp", SrcIP: "10.1.0.4", Listen: g.intn(len(p.Cfg.Listens)), Conn: "h-" + id,
-				S: map[string]string{"how": "many-short-lived-clients"}, I: map[string]int{"clients": g.rng(40, 70)}}
+				S: map[string]string{"how": "many-short-lived-clients"}, I: map[string]int{"clients": g.rng(40, 70), "tcpHop": g.intn(2)}}
 			p.Cfg.Knobs["maxTCPConns"] = 24
 			data = []byte{}
 		} else if g.chance(5) {
@@ -477,6 +477,10 @@ func execRobust(t *testing.T, p *Plan) *Result {
 						cid := fmt.Sprintf("%s.c%d", op.ID, k)
 						b := &sipwire.Builder{Start: "OPTIONS sip:probe@svc.example.com SIP/2.0"}
 						b.Add("Via", "SIP/2.0/TCP 10.1.0.4:5060;branch=z9hG4bK"+strings.ReplaceAll(cid, "-", ""))
+						if op.I["tcpHop"] == 1 {
+							// every client's request goes on to the same next hop over TCP: one connection serves them all
+							b.Add("Route", "<sip:"+topo.hops[0]+":5080;transport=tcp;lr>")
+						}
 						b.Add("From", "<sip:a@caller.test>;tag=1")
 						b.Add("To", "<sip:probe@svc.example.com>")
 						b.Add("Call-ID", "cid-"+cid)
